@@ -392,7 +392,7 @@ theorem generate_recover (sha256 : Bytes â†’ Bytes) (hmac256 : Bytes â†’ Bytes â
       have := (List.subperm_of_subset hnd2 hsubset).length_le
       simpa using this
     have hrec : ShareSet.recover hmac256 kdf (s0 :: r) pass = some secret := by
-      unfold ShareSet.recover
+      unfold ShareSet.recover recoverWith
       simp only
       have hany : (s0 :: r).any (fun s => decide (s.groupIndex â‰¥ s0.groupCount)) = false := by
         rw [List.any_eq_false]
